@@ -283,7 +283,9 @@ def r14_4(ctx: Ctx) -> RuleResult:
                     and n.targets[0].id == acc and path_of(n.value) == "self"
                 ]
                 rets = [n for n in join.node.body if isinstance(n, ast.Return) and path_of(n.value) == acc]
-                ok = bool(inits and rets)
+                # every part is joined: nothing in the loop body can skip the fold step or leave the loop
+                skips = [x for b in loops[0].body for x in ast.walk(b) if isinstance(x, (ast.Continue, ast.Break, ast.Return, ast.If))]
+                ok = bool(inits and rets) and not skips
     if ok:
         rr.ok(join.loc(), "join(): p = self; for part in parts: p = p / part; return p")
     else:
@@ -456,4 +458,12 @@ def r14_6(ctx: Ctx) -> RuleResult:
     return rr
 
 
-RULES = [r14_1, r14_2, r14_3, r14_4, r14_5, r14_6]
+def r14_7(ctx: Ctx) -> RuleResult:
+    """Tokens that contain non-ASCII characters survive parsing, from_parts and `/`: the escape decoder is applied to
+    text that was encoded so that only backslash sequences are rewritten (= R4.5)."""
+    from .c04 import r4_5
+
+    return r4_5(ctx, "R14.7")
+
+
+RULES = [r14_1, r14_2, r14_3, r14_4, r14_5, r14_6, r14_7]
